@@ -5597,6 +5597,7 @@ func (t *Terminal) Loop() error {
 			case actToggleWrap:
 				t.wrap = !t.wrap
 				t.clearNumLinesCache()
+				t.forceRerenderList()
 				req(reqList, reqHeader)
 			case actToggleMultiLine:
 				t.multiLine = !t.multiLine
